@@ -234,8 +234,8 @@ def r4_operator_semantics(ctx, cls, mod, methods, unresolved=()):
 CMP_AST = {'eq': ast.Eq, 'ne': ast.NotEq, 'lt': ast.Lt, 'le': ast.LtE, 'gt': ast.Gt, 'ge': ast.GtE}
 
 
-def r4c_comparisons(ctx, cls, mod, methods):
-    ctx.rule('R4c', "each rich comparison of the proxy applies exactly its own operator to the unwrapped pair (abstract "
+def r4c_comparisons(ctx, cls, mod, methods, rid='R4c'):
+    ctx.rule(rid, "each rich comparison of the proxy applies exactly its own operator to the unwrapped pair (abstract "
                     "execution with symbolic operands, other operand plain or proxied): deriving > from <= or != from "
                     "== is wrong for partially ordered values (sets, NaN) and for values with their own __ne__")
     names = {v: k for k, v in CMP_AST.items()}
@@ -261,7 +261,7 @@ def r4c_comparisons(ctx, cls, mod, methods):
             want = ('cmp', op, val, oth)
             ok = isinstance(got, tuple) and len(got) == 4 and got[0] == 'cmp' and got[1] == op and got[2] is val \
                 and got[3] is oth
-            ctx.check(ok, 'R4c', 'SandboxResult.%s%s' % (name, ':proxied-other' if other_proxied else ''), mod, fn,
+            ctx.check(ok, rid, 'SandboxResult.%s%s' % (name, ':proxied-other' if other_proxied else ''), mod, fn,
                       "%s does not return `value %s other` on the unwrapped operands (got %s)" % (
                           name, {'eq': '==', 'ne': '!=', 'lt': '<', 'le': '<=', 'gt': '>', 'ge': '>='}[op],
                           _show(got)),
